@@ -48,6 +48,15 @@ CLAIMS["C08"] = dict(
    text="Decides that every key/point __eq__ returns a definite False (never raises) for a foreign type, different privacy or any single differing component and True for equal components; that the OpenSSH (RFC 4251 mpint sign byte for top bytes 7F/80/81/FF), PKCS#1, SPKI and RFC 5915 writers emit exactly the standard's structure at the boundary representatives (including scalars with leading zero bytes) and that the PKCS#1 reader returns the same components. Identity over all keys and protection schemes is not decided.",
    note="The DER/mpint oracle is vstat/spec/der.py, written from X.690/RFC 4251 independently of the repository.")
 
+CLAIMS["C03"] = dict(
+   technique="constant/parameter conformance read from class literals and from the FFI call events of an abstract interpretation; piecewise observation rows (HMAC key normalisation, CMAC sub-keys and last block, SP 800-185 encoders) against the checker's own references; tag-comparison data-flow and must-pass-through; guard normalisation",
+   text="Decides the Python-visible necessary conditions: every hash module publishes the standard's digest size, block size and OID and passes the standard's capacity, round count and domain byte to the native sponge; HMAC's key preparation (including the exactly-one-block boundary), CMAC's sub-keys/Rb/last-block rule and the SP 800-185 string encoders compute the standard's values at the region representatives; every MAC verify() compares whole tags and raises ValueError; parameter domains are exact. Digest values (C code) are not decided here.",
+   note="Reference encoders and the symbolic hash are written in the checker from RFC 2104, SP 800-38B and SP 800-185.")
+CLAIMS["C12"] = dict(
+   technique="abstract interpretation of the KDFs with PRF/HMAC/hash replaced by an injective symbolic function and comparison of the derived terms with the checker's own RFC 8018 / RFC 5869 / SP 800-108 references; guard normalisation by region enumeration; whole-value comparison data-flow for bcrypt_check",
+   text="Decides that PBKDF2 (generic path), HKDF, SP 800-108 counter mode and PBKDF1 build exactly the terms their specifications define (counters, encodings, chaining, concatenation, truncation, consecutive multi-key slices) for output lengths around block boundaries, that HMAC's key preparation is RFC 2104's, and that every documented parameter domain (scrypt N a power of two below 2^32, p*r bound, bcrypt cost/salt/72-byte/NUL rules, HKDF 255*hLen) is enforced exactly. Native fast paths (PBKDF2 assist, ROMix, EKSBlowfish) are not decided.",
+   note="The symbolic PRF is SHA-256 over a length-prefixed encoding computed by the checker; references in vstat/props/C12.py.")
+
 NOT_YET = {}
 
 ALL = ["C%02d" % i for i in range(1, 21)]
